@@ -4,6 +4,7 @@ import (
 	"bytes"
 	"encoding/binary"
 	"encoding/gob"
+	"errors"
 	"fmt"
 	"sync"
 
@@ -85,6 +86,21 @@ func (idx *BigIndexWriter) AddRow(values map[string]string) (uint32, error) {
 	}
 
 	return rowID, nil
+}
+
+// Close releases the transaction the writer keeps open on the temporary database. It has
+// to be called when the writer is abandoned without Flush (e.g. because reading the input
+// failed); otherwise closing the temporary database blocks forever. Calling it after Flush
+// is harmless.
+func (idx *BigIndexWriter) Close() error {
+	idx.mtx.Lock()
+	defer idx.mtx.Unlock()
+
+	if err := idx.tempTx.Rollback(); err != nil && !errors.Is(err, bbolt.ErrTxClosed) {
+		return err
+	}
+
+	return nil
 }
 
 func (idx *BigIndexWriter) Flush() error {
